@@ -42,7 +42,9 @@ ASSUMPTIONS = ["tip names are distinct (sort.Slice on equal names is not modelle
 LEVEL_TEXT = ("theorems in coq/Properties/C14.v about Model/Matrix.v (cells = path sums, symmetric, zero diagonal, name order, "
               "average = mean; cut = partition of the tips into the pieces left by the branches not shorter than the threshold); "
               "correspondence by exact equality of names, cells and bags; the run-time oracle for the cut is the independent "
-              "union-find specification coq/Spec/Cut.v")
+              "union-find specification coq/Spec/Cut.v; coq/Properties/C14Extra8.v: average over trees on the same taxa in any tip "
+              "order (defined iff same taxa), matrix invariant under re-rooting and neighbour order, cut at thresholds <= 0 / absent "
+              "lengths, exact failure mode of the average on other taxa (Model/C14Extra8.v, tied by the 'counts' avg family)")
 LEVEL_NOTE = ("cut: the code compares the stored length with the threshold, so a branch without length (-1) is shorter than every "
               "threshold above -1; the specification Spec/Cut.v reads 'shorter than the threshold' the same way (the property "
               "text does not say how a missing length counts for the cut; for the matrix it counts as 0)")
@@ -199,6 +201,29 @@ def gen(rng, tier):
         l0 = e0["len"]
         for th in {l0, l0 + Fraction(1, 64), l0 - Fraction(1, 64), Fraction(0), Fraction(1000), l0 / 2}:
             out.append({"sx": sx({"op": Sym("cut"), "maxlen": th, "tree": T(t)}), "meta": meta("cut", t, threshold="root1", root1=True)})
+    # ---- other taxa with different numbers of tips (outside the property's quantifier): the exact model of the two loops of
+    #      AvgDistanceMatrix (coq/Model/C14Extra8.v) says whether the call returns the error or indexes out of range
+    for k in range({"quick": 40, "thorough": 400, "search": 60}[tier]):
+        n1 = rng.randint(2, 8)
+        n2 = rng.randint(2, 8)
+        if n1 == n2:
+            n2 += 1
+        a = rand_tree0(g, rng, tier, ntips=n1)
+        b = rand_tree0(g, rng, tier, ntips=n2)
+        for t_ in (a, b):
+            lv = [x for x in preorder(t_) if not kids(x)]
+            nms = ["u%02d" % i for i in range(len(lv))]
+            rng.shuffle(nms)
+            for x, nm in zip(lv, nms):
+                x["name"] = nm
+        renamed = rng.random() < 0.4
+        if renamed:
+            victim = rng.choice([x for x in preorder(b) if not kids(x)])
+            victim["name"] = rng.choice(["a0", "u03x", "zz"])
+        ts = [a, b] if rng.random() < 0.7 else [a, a, b]
+        m = rng.choice(METRICS)
+        out.append({"sx": sx({"op": Sym("avg"), "metric": Sym(m), "trees": [T(x) for x in ts]}),
+                    "meta": {"op": "avg", "metric": m, "ntrees": len(ts), "ntips": n1, "mismatch": True, "counts": (n1, n2), "renamed": renamed}})
     navg = {"quick": 120, "thorough": 2000, "search": 200}[tier]
     for k in range(navg):
         nt = rng.randint(2, 10 if tier != "thorough" else 25)
